@@ -562,6 +562,263 @@ theorem sdo_next (f : Nat) (s : SymmetricDiffOwned α) (hf : sdoLen s + 1 ≤ f)
       refine ⟨_, _, ⟨rfl, rfl⟩, by simp, rfl, ?_⟩
       simp [Function.comp_def, toOwned]
 
+theorem sdoOut_nil_of_len (s : SymmetricDiffOwned α) (h : sdoLen s = 0) : sdoOut s = [] := by
+  rcases s with ⟨a, b, f⟩
+  simp only [sdoLen] at h
+  have ha : a = [] := List.length_eq_zero_iff.mp (by omega)
+  have hb : b = [] := List.length_eq_zero_iff.mp (by omega)
+  subst ha hb
+  rcases f with _ | _ | _ <;> simp [sdoOut, refDiff_nil_left]
+
+theorem sdo_collect (fuel : Nat) (s : SymmetricDiffOwned α) (hf : sdoLen s ≤ fuel) :
+    SymmetricDiffOwned.collect fuel s = sdoOut s := by
+  induction fuel generalizing s with
+  | zero => simp [SymmetricDiffOwned.collect, sdoOut_nil_of_len s (by omega)]
+  | succ n ih =>
+    rw [SymmetricDiffOwned.collect]
+    rcases sdo_next (sdoLen s + 1) s (Nat.le_refl _) with ⟨e1, e2⟩ | ⟨x, s', e1, e2, e3⟩
+    · simp only [sdoLen] at e1
+      rw [e2]
+      split
+      · rfl
+      · rename_i heq; rw [heq] at e1; simp at e1
+    · simp only [sdoLen] at e1
+      simp only [e1, e3]
+      rw [ih s' (by omega)]
+
+theorem symmetricDiffOwned_eq_ref (a b : AMap α) :
+    symmetricDiffOwned a b = (refDiff a b).map toOwned := by
+  unfold symmetricDiffOwned
+  rw [sdo_collect _ _ (by simp [sdoLen])]
+  rfl
+
+theorem symmetricDiffOwned_eq (a b : AMap α) (ha : a.Sorted) (hb : b.Sorted) :
+    symmetricDiffOwned a b = (symmetricDiff a b).map toOwned := by
+  rw [symmetricDiffOwned_eq_ref, symmetricDiff_eq_ref a b ha hb]
+
+end
+
+/-! ## `MergeOnceWith` with the key comparator -/
+section
+variable {β γ : Type}
+
+theorem refMerge_nil_left (r : List (Int × γ)) :
+    refMerge ([] : List (Int × β)) r = r.map .right := by
+  simp [refMerge]
+
+theorem refMerge_nil_right (l : List (Int × β)) :
+    refMerge l ([] : List (Int × γ)) = l.map .left := by
+  cases l <;> simp [refMerge]
+
+theorem refMerge_cons_cons (x : Int × β) (l : List (Int × β)) (y : Int × γ) (r : List (Int × γ)) :
+    refMerge (x :: l) (y :: r) =
+      if x.1 < y.1 then .left x :: refMerge l (y :: r)
+      else if y.1 < x.1 then .right y :: refMerge (x :: l) r
+      else .both x y :: refMerge l r := by
+  rw [refMerge]
+
+/-- closed form of what a `MergeOnceWith keyCmp` state still has to yield -/
+def mwOut (s : MergeOnceWith (Int × β) (Int × γ)) : List (MergeElement (Int × β) (Int × γ)) :=
+  match s.fused with
+  | none => refMerge s.a s.b
+  | some true => s.a.map .left
+  | some false => s.b.map .right
+
+def mwLen (s : MergeOnceWith (Int × β) (Int × γ)) : Nat := s.a.length + s.b.length
+
+theorem mw_next_none (s s' : MergeOnceWith (Int × β) (Int × γ))
+    (h : s.next keyCmp = (none, s')) : mwOut s = [] := by
+  rcases s with ⟨a, b, f⟩
+  rcases f with _ | _ | _ <;> rcases a with _ | ⟨x, a⟩ <;> rcases b with _ | ⟨y, b⟩ <;>
+    simp [MergeOnceWith.next, mwOut, refMerge_nil_right] at h ⊢
+  cases hc : keyCmp x y <;> simp [hc] at h
+
+theorem keyCmp_lt (x : Int × β) (y : Int × γ) (h : x.1 < y.1) : keyCmp x y = .lt := by
+  simp [keyCmp, compare, compareOfLessAndEq, h]
+
+theorem keyCmp_gt (x : Int × β) (y : Int × γ) (h : y.1 < x.1) : keyCmp x y = .gt := by
+  have h1 : ¬ x.1 < y.1 := by omega
+  have h2 : ¬ x.1 = y.1 := by omega
+  simp [keyCmp, compare, compareOfLessAndEq, h1, h2]
+
+theorem keyCmp_eq (x : Int × β) (y : Int × γ) (h1 : ¬ x.1 < y.1) (h2 : ¬ y.1 < x.1) :
+    keyCmp x y = .eq := by
+  have h3 : x.1 = y.1 := by omega
+  simp [keyCmp, compare, compareOfLessAndEq, h3]
+
+theorem mw_next_some (s s' : MergeOnceWith (Int × β) (Int × γ))
+    (e : MergeElement (Int × β) (Int × γ)) (h : s.next keyCmp = (some e, s')) :
+    mwOut s = e :: mwOut s' ∧ mwLen s' < mwLen s := by
+  rcases s with ⟨a, b, f⟩
+  rcases f with _ | _ | _ <;> rcases a with _ | ⟨x, a⟩ <;> rcases b with _ | ⟨y, b⟩ <;>
+    simp [MergeOnceWith.next, mwOut, mwLen, refMerge_nil_left, refMerge_nil_right] at h ⊢
+  case none.cons.cons =>
+    rw [refMerge_cons_cons]
+    by_cases h1 : x.1 < y.1
+    · simp [keyCmp_lt x y h1] at h
+      obtain ⟨rfl, rfl⟩ := h
+      simp [h1]
+    · by_cases h2 : y.1 < x.1
+      · simp [keyCmp_gt x y h2] at h
+        obtain ⟨rfl, rfl⟩ := h
+        simp [h1, h2]
+      · simp [keyCmp_eq x y h1 h2] at h
+        obtain ⟨rfl, rfl⟩ := h
+        simp [h1, h2]; omega
+  all_goals
+    obtain ⟨rfl, rfl⟩ := h
+    simp
+
+theorem mwOut_nil_of_len (s : MergeOnceWith (Int × β) (Int × γ)) (h : mwLen s = 0) :
+    mwOut s = [] := by
+  rcases s with ⟨a, b, f⟩
+  simp only [mwLen] at h
+  have ha : a = [] := List.length_eq_zero_iff.mp (by omega)
+  have hb : b = [] := List.length_eq_zero_iff.mp (by omega)
+  subst ha hb
+  rcases f with _ | _ | _ <;> simp [mwOut, refMerge_nil_left]
+
+theorem mw_collect (fuel : Nat) (s : MergeOnceWith (Int × β) (Int × γ)) (h : mwLen s ≤ fuel) :
+    MergeOnceWith.collect keyCmp fuel s = mwOut s := by
+  induction fuel generalizing s with
+  | zero => simp [MergeOnceWith.collect, mwOut_nil_of_len s (by omega)]
+  | succ n ih =>
+    rw [MergeOnceWith.collect]
+    rcases hn : s.next keyCmp with ⟨_ | e, s'⟩
+    · simp [mw_next_none _ _ hn]
+    · obtain ⟨h1, h2⟩ := mw_next_some _ _ _ hn
+      simp [h1, ih s' (by omega)]
+
+theorem mergeDiffs_eq_ref (l : List (Int × β)) (r : List (Int × γ)) :
+    mergeDiffs l r = refMerge l r := by
+  unfold mergeDiffs
+  rw [mw_collect _ _ (by simp [mwLen])]
+  rfl
+
+/-! ### ascending -/
+
+theorem refMerge_key_mem (l : List (Int × β)) (r : List (Int × γ))
+    (e : MergeElement (Int × β) (Int × γ)) (h : e ∈ refMerge l r) :
+    (∃ x ∈ l, x.1 = e.key) ∨ (∃ y ∈ r, y.1 = e.key) := by
+  fun_induction refMerge l r with
+  | case1 r =>
+    right
+    obtain ⟨y, hy, rfl⟩ := List.mem_map.mp h
+    exact ⟨y, hy, rfl⟩
+  | case2 l hne =>
+    left
+    obtain ⟨x, hx, rfl⟩ := List.mem_map.mp h
+    exact ⟨x, hx, rfl⟩
+  | case3 x l y r h1 ih =>
+    rcases List.mem_cons.mp h with rfl | h'
+    · exact .inl ⟨x, by simp, rfl⟩
+    · rcases ih h' with ⟨x', hx', e'⟩ | ⟨y', hy', e'⟩
+      · exact .inl ⟨x', by simp [hx'], e'⟩
+      · exact .inr ⟨y', hy', e'⟩
+  | case4 x l y r h1 h2 ih =>
+    rcases List.mem_cons.mp h with rfl | h'
+    · exact .inr ⟨y, by simp, rfl⟩
+    · rcases ih h' with ⟨x', hx', e'⟩ | ⟨y', hy', e'⟩
+      · exact .inl ⟨x', hx', e'⟩
+      · exact .inr ⟨y', by simp [hy'], e'⟩
+  | case5 x l y r h1 h2 ih =>
+    rcases List.mem_cons.mp h with rfl | h'
+    · exact .inl ⟨x, by simp, rfl⟩
+    · rcases ih h' with ⟨x', hx', e'⟩ | ⟨y', hy', e'⟩
+      · exact .inl ⟨x', by simp [hx'], e'⟩
+      · exact .inr ⟨y', by simp [hy'], e'⟩
+
+theorem pairwise_map_fst_cons {δ : Type} (x : Int × δ) (l : List (Int × δ)) :
+    List.Pairwise (· < ·) ((x :: l).map (·.1)) ↔
+      (∀ x' ∈ l, x.1 < x'.1) ∧ List.Pairwise (· < ·) (l.map (·.1)) := by
+  simp [List.pairwise_cons]
+
+theorem refMerge_ascending (l : List (Int × β)) (r : List (Int × γ))
+    (hl : List.Pairwise (· < ·) (l.map (·.1))) (hr : List.Pairwise (· < ·) (r.map (·.1))) :
+    List.Pairwise (· < ·) ((refMerge l r).map MergeElement.key) := by
+  fun_induction refMerge l r with
+  | case1 r => simpa [Function.comp_def, MergeElement.key] using hr
+  | case2 l hne => simpa [Function.comp_def, MergeElement.key] using hl
+  | case3 x l y r h1 ih =>
+    have hl' := (pairwise_map_fst_cons x l).mp hl
+    have hr' := (pairwise_map_fst_cons y r).mp hr
+    rw [List.map_cons, List.pairwise_cons]
+    refine ⟨?_, ih hl'.2 hr⟩
+    intro k hk
+    obtain ⟨e, he, rfl⟩ := List.mem_map.mp hk
+    show x.1 < e.key
+    rcases refMerge_key_mem _ _ e he with ⟨x', hx', e'⟩ | ⟨y', hy', e'⟩
+    · have := hl'.1 x' hx'; omega
+    · rcases List.mem_cons.mp hy' with rfl | hy''
+      · omega
+      · have := hr'.1 y' hy''; omega
+  | case4 x l y r h1 h2 ih =>
+    have hl' := (pairwise_map_fst_cons x l).mp hl
+    have hr' := (pairwise_map_fst_cons y r).mp hr
+    rw [List.map_cons, List.pairwise_cons]
+    refine ⟨?_, ih hl hr'.2⟩
+    intro k hk
+    obtain ⟨e, he, rfl⟩ := List.mem_map.mp hk
+    show y.1 < e.key
+    rcases refMerge_key_mem _ _ e he with ⟨x', hx', e'⟩ | ⟨y', hy', e'⟩
+    · rcases List.mem_cons.mp hx' with rfl | hx''
+      · omega
+      · have := hl'.1 x' hx''; omega
+    · have := hr'.1 y' hy'; omega
+  | case5 x l y r h1 h2 ih =>
+    have hl' := (pairwise_map_fst_cons x l).mp hl
+    have hr' := (pairwise_map_fst_cons y r).mp hr
+    rw [List.map_cons, List.pairwise_cons]
+    refine ⟨?_, ih hl'.2 hr'.2⟩
+    intro k hk
+    obtain ⟨e, he, rfl⟩ := List.mem_map.mp hk
+    show x.1 < e.key
+    rcases refMerge_key_mem _ _ e he with ⟨x', hx', e'⟩ | ⟨y', hy', e'⟩
+    · have := hl'.1 x' hx'; omega
+    · have := hr'.1 y' hy'; omega
+
+theorem mergeDiffs_ascending (l : List (Int × β)) (r : List (Int × γ))
+    (hl : List.Pairwise (· < ·) (l.map (·.1))) (hr : List.Pairwise (· < ·) (r.map (·.1))) :
+    List.Pairwise (· < ·) ((mergeDiffs l r).map MergeElement.key) := by
+  rw [mergeDiffs_eq_ref]; exact refMerge_ascending l r hl hr
+
+/-! ### membership -/
+
+theorem refMerge_mem (l : List (Int × β)) (r : List (Int × γ))
+    (hl : List.Pairwise (· < ·) (l.map (·.1))) (hr : List.Pairwise (· < ·) (r.map (·.1)))
+    (e : MergeElement (Int × β) (Int × γ)) :
+    e ∈ refMerge l r ↔
+      ((∃ x, e = .left x ∧ x ∈ l ∧ ∀ y ∈ r, y.1 ≠ x.1) ∨
+       (∃ y, e = .right y ∧ y ∈ r ∧ ∀ x ∈ l, x.1 ≠ y.1) ∨
+       (∃ x y, e = .both x y ∧ x ∈ l ∧ y ∈ r ∧ x.1 = y.1)) := by
+  fun_induction refMerge l r with
+  | case1 r => simp; grind
+  | case2 l hne => simp; grind
+  | case3 x l y r h1 ih =>
+    have hl' := (pairwise_map_fst_cons x l).mp hl
+    have hr' := (pairwise_map_fst_cons y r).mp hr
+    rw [List.mem_cons, ih hl'.2 hr]
+    grind
+  | case4 x l y r h1 h2 ih =>
+    have hl' := (pairwise_map_fst_cons x l).mp hl
+    have hr' := (pairwise_map_fst_cons y r).mp hr
+    rw [List.mem_cons, ih hl hr'.2]
+    grind
+  | case5 x l y r h1 h2 ih =>
+    have hl' := (pairwise_map_fst_cons x l).mp hl
+    have hr' := (pairwise_map_fst_cons y r).mp hr
+    rw [List.mem_cons, ih hl'.2 hr'.2]
+    grind
+
+theorem mergeDiffs_mem (l : List (Int × β)) (r : List (Int × γ))
+    (hl : List.Pairwise (· < ·) (l.map (·.1))) (hr : List.Pairwise (· < ·) (r.map (·.1)))
+    (e : MergeElement (Int × β) (Int × γ)) :
+    e ∈ mergeDiffs l r ↔
+      ((∃ x, e = .left x ∧ x ∈ l ∧ ∀ y ∈ r, y.1 ≠ x.1) ∨
+       (∃ y, e = .right y ∧ y ∈ r ∧ ∀ x ∈ l, x.1 ≠ y.1) ∨
+       (∃ x y, e = .both x y ∧ x ∈ l ∧ y ∈ r ∧ x.1 = y.1)) := by
+  rw [mergeDiffs_eq_ref]; exact refMerge_mem l r hl hr e
+
 end
 
 end IncrVerif.Proofs
